@@ -7,6 +7,9 @@ import time
 
 VERIF = os.path.dirname(os.path.dirname(os.path.abspath(__file__)))
 REPO = os.environ.get('WCVERIF_REPO', '/repo')
+# where evidence/ and replays/ are written: /verif itself, unless a mutation / seeded-change evaluation redirects it so that the
+# evidence of the unchanged tree is not overwritten by a run against a deliberately broken copy
+OUT = os.environ.get('WCVERIF_OUT') or VERIF
 GUARD = 'WCMATCH_VERIF'
 
 # The working tree is always what is executed: /repo first on sys.path, no byte code written into it.
